@@ -1,6 +1,7 @@
 (* C15 - a failing writer always surfaces as an error and output stops there.
    Only statements here; proofs live in Proofs/WriterProofs.v. *)
 From Tab Require Import Model.Writer Model.Csv Proofs.WriterProofs.
+From Tab Require Model.Markdown Model.Json Model.Text Model.Decoration.
 
 (* For EVERY write list whose calls are all checked and EVERY scripted writer
    (any fault position, persistent or single, with or without a partial
@@ -41,6 +42,29 @@ Theorem c15_csv : forall v sc out, csv_render v = Ok out ->
     /\ (e = false -> acc = out).
 Proof. intros v sc out H. apply render_to_faults. exact H. Qed.
 Print Assumptions c15_csv.
+
+(* ... the Markdown, JSON and text renderers' models (every Write of the
+   repaired code is checked: the model write lists carry no unchecked call) *)
+Theorem c15_markdown : forall W v sc out, Markdown.md_render W v = Ok out ->
+  exists e acc, render_to (Markdown.md_render_writes W v) sc = Ok (e, acc) /\ prefix acc out
+    /\ (forall l, Markdown.md_render_writes W v = Ok l -> fails_within sc 0 (checked l) = true -> e = true)
+    /\ (e = false -> acc = out).
+Proof. intros W v sc out H. apply render_to_faults. exact H. Qed.
+Print Assumptions c15_markdown.
+
+Theorem c15_json : forall strenc v sc out, Json.json_render strenc v = Ok out ->
+  exists e acc, render_to (Json.json_render_writes strenc v) sc = Ok (e, acc) /\ prefix acc out
+    /\ (forall l, Json.json_render_writes strenc v = Ok l -> fails_within sc 0 (checked l) = true -> e = true)
+    /\ (e = false -> acc = out).
+Proof. intros strenc v sc out H. apply render_to_faults. exact H. Qed.
+Print Assumptions c15_json.
+
+Theorem c15_text : forall W d v sc out, Text.text_render W d v = Ok out ->
+  exists e acc, render_to (Text.text_render_writes W d v) sc = Ok (e, acc) /\ prefix acc out
+    /\ (forall l, Text.text_render_writes W d v = Ok l -> fails_within sc 0 (checked l) = true -> e = true)
+    /\ (e = false -> acc = out).
+Proof. intros W d v sc out H. apply render_to_faults. exact H. Qed.
+Print Assumptions c15_text.
 
 (* the decidable prefix test used on the implementation's bytes means prefix *)
 Theorem c15_prefixb_sound : forall a b, prefixb a b = true <-> prefix a b.
